@@ -47,6 +47,15 @@ const FIELD_NAMES: [&str; PARAM_LEN] = [
 
 const LAZY_ROWS: [(u32, u32); 7] = [(0, 0), (4, 4), (8, 16), (8, 16), (8, 32), (32, 128), (32, 258)];
 
+thread_local! {
+    static MAX_DIST_HINT: std::cell::Cell<u32> = std::cell::Cell::new(32768);
+}
+
+/// largest distance of the stream under test (set by eval_dna before perturbing)
+fn tight_window_hint() -> u32 {
+    MAX_DIST_HINT.with(|c| c.get())
+}
+
 fn default_vector() -> Vec<u32> {
     let mut v = vec![0u32; PARAM_LEN];
     v[P_ZLIB_COMPATIBLE] = 1;
@@ -75,7 +84,14 @@ fn no_dictionary_vector(strategy: u32, huff: u32) -> Vec<u32> {
 
 /// perturb one group of fields; returns the group's name
 fn perturb(v: &mut Vec<u32>, dna: &mut Dna) -> &'static str {
-    match dna.below(17) {
+    match dna.below(18) {
+        17 => {
+            // window just large enough for the largest distance (or one bit short of it)
+            let md = tight_window_hint();
+            let wb = (32 - (md.max(2) - 1).leading_zeros()).clamp(9, 15);
+            v[P_WINDOW_BITS] = if dna.chance(25) { (wb - 1).max(9) } else { wb };
+            "tight-window"
+        }
         15 | 16 => {
             let f = [P_ZLIB_COMPATIBLE, P_VERY_FAR_MATCHES, P_MATCHES_TO_START, P_MATCHES_TO_START][dna.below(4)];
             v[f] ^= 1;
@@ -336,9 +352,12 @@ fn eval_dna(dna_bytes: &[u8], ctx: &mut Ctx) -> Result<(), (Failure, Value)> {
     let vec_dna = dna.bytes(160);
     let case = gen_stream(&mut dna, &MIX_C08);
     ctx.set_inflight(&json!({"kind":"c08-stream","hex":hex(&case.bytes)}));
-    if !matches!(lib_parse(&case.bytes), Ok(Ok(_))) {
-        ctx.discard("stream does not parse");
-        return Ok(());
+    match lib_parse(&case.bytes) {
+        Ok(Ok(sum)) => MAX_DIST_HINT.with(|c| c.set(sum.max_dist.max(1))),
+        _ => {
+            ctx.discard("stream does not parse");
+            return Ok(());
+        }
     }
     ctx.class(&format!("source:{}", case.source));
     let est = match guard(|| hooks::estimate(&case.bytes).map_err(|e| err_info(&e))) {
